@@ -78,6 +78,24 @@ def gz_with_name(data, fname_len, level=6):
     return images.gz(data, level, fname='n' * fname_len)
 
 
+def gz_with_flags(data, flags, mtime=0, xfl=0, osb=3, level=6):
+    """gzip member (RFC 1952) with any combination of FTEXT(1) FHCRC(2) FEXTRA(4) FNAME(8) FCOMMENT(16) header fields"""
+    import zlib, struct
+    hdr = bytearray(b'\x1f\x8b\x08' + bytes([flags]) + struct.pack('<I', mtime) + bytes([xfl, osb]))
+    if flags & 4:
+        extra = b'AP\x04\x00beeb'
+        hdr += struct.pack('<H', len(extra)) + extra
+    if flags & 8:
+        hdr += b'disc.ssd\x00'
+    if flags & 16:
+        hdr += b'a comment field\x00'
+    if flags & 2:
+        hdr += struct.pack('<H', zlib.crc32(bytes(hdr)) & 0xFFFF)
+    c = zlib.compressobj(level, zlib.DEFLATED, -15)
+    body = c.compress(data) + c.flush()
+    return bytes(hdr) + body + struct.pack('<II', zlib.crc32(data) & 0xFFFFFFFF, len(data) & 0xFFFFFFFF)
+
+
 def compare_pair(res, d, name, cmds, sig, note):
     for cmd in cmds:
         outs = []
@@ -128,6 +146,8 @@ def w_pair(case):
             z = gz_members(data, how['cuts'], how.get('level', 6))
         elif 'fname2' in how:
             z = gz_two_members_named(data, how['cut'], how['fname2'])
+        elif 'flags' in how:
+            z = gz_with_flags(data, how['flags'], how.get('mtime', 0), how.get('xfl', 0), how.get('os', 3))
         elif 'fname' in how:
             z = gz_with_name(data, how['fname'], how.get('level', 6))
         else:
@@ -346,6 +366,20 @@ def fam_boundary(tier):
                'sig': 'C10:boundary', 'note': 'FNAME length %d' % ln, 'cmds': [['cat'], ['type', '--binary', 'HELLO']]}
 
 
+def fam_header(tier):
+    """every combination of the five gzip header flags (FTEXT FHCRC FEXTRA FNAME FCOMMENT: 32 headers), MTIME / XFL / OS byte values"""
+    spec = {'ext': 'ssd', 'tracks': 40, 'spt': 10, 'nsec': 14}
+    cmds = [['cat'], ['type', '--binary', 'HELLO'], ['free']]
+    for flags in range(32):
+        yield {'w': 'pair', 'spec': spec, 'gz': {'flags': flags}, 'sig': 'C10:header-flags', 'note': 'FLG=%#04x' % flags, 'cmds': cmds}
+    for mtime in (1, 0x7FFFFFFF, 0xFFFFFFFF):
+        yield {'w': 'pair', 'spec': spec, 'gz': {'flags': 0, 'mtime': mtime}, 'sig': 'C10:header-mtime', 'note': 'MTIME=%#x' % mtime, 'cmds': cmds}
+    for xfl in (2, 4, 0xFF):
+        yield {'w': 'pair', 'spec': spec, 'gz': {'flags': 8, 'xfl': xfl}, 'sig': 'C10:header-xfl', 'note': 'XFL=%#x' % xfl, 'cmds': cmds}
+    for osb in (0, 7, 11, 255):
+        yield {'w': 'pair', 'spec': spec, 'gz': {'flags': 16, 'os': osb}, 'sig': 'C10:header-os', 'note': 'OS=%d' % osb, 'cmds': cmds}
+
+
 def fam_member_boundary(tier):
     """two members: the end of the first member swept over every offset residue mod 512 (and beyond 1x/2x the input buffer)"""
     rng = range(0, 1100) if tier == 'thorough' else range(0, 520)
@@ -372,7 +406,7 @@ def fam_damage(tier):
                 yield {'w': 'damage', 'subject': subject, 'damages': dam[i:i + 120]}
 
 
-FAMILIES = [('P-paths-with-inner-extensions', fam_paths), ('L-levels-sizes', fam_levels), ('G-container-geometry', fam_geometry), ('M-members', fam_members),
+FAMILIES = [('P-paths-with-inner-extensions', fam_paths), ('H-gzip-header-fields', fam_header), ('L-levels-sizes', fam_levels), ('G-container-geometry', fam_geometry), ('M-members', fam_members),
             ('B-buffer-boundaries', fam_boundary), ('E-member-end-vs-input-buffer', fam_member_boundary),
             ('D-damaged-streams', fam_damage)]
 
